@@ -607,6 +607,38 @@ def search_direction(ctx):
         raise AnalysisError("stack searches vanished: %s" % sorted(missing))
 
 
+def frameset_text(ctx):
+    """C01.26: "in frameset", "after frameset", "after after frameset": a white-space character is inserted (resp. handled by the
+    in-body rules), any other character is a parse error and ignored -- *per character*.  The tokenizer hands over runs
+    (`a b` is one Characters token; only leading white space is split off), so the handlers of these modes must keep the
+    white space inside a run.  Each processCharacters is run (sa/classeval.py) on the token `a b` with a recording tree."""
+    from ..classeval import ClassEval, Record
+    r = ctx.r
+    pm = model(ctx)
+    r.rule("C01.26", "the frameset modes keep the white space inside a run of characters", floor=3)
+    mod = ctx.repo.module(PARSER_REL)
+    for key in ("inFrameset", "afterFrameset", "afterAfterFrameset"):
+        cls = pm.phases.get(key)
+        f = cls.find_method("processCharacters") if cls is not None else None
+        if f is None or len(f.params()) < 2:
+            r.idiom("C01.26", False, "frameset-text::%s" % key, PARSER_REL, "no processCharacters for %s" % key)
+            continue
+        inserted = []
+        tree = Record(insertText=lambda data, parent=None: inserted.append(data), openElements=[Record(name="html"), Record(name="frameset")],
+                      reconstructActiveFormattingElements=lambda: None)
+        body_model = Record(processSpaceCharacters=lambda tok: inserted.append(tok["data"]), processCharacters=lambda tok: inserted.append(tok["data"]))
+        parser = Record(parseError=lambda *a: None, phases={"inBody": body_model})
+        try:
+            ClassEval(ctx.ce, mod, cls, {"tree": tree, "parser": parser}, repo=ctx.repo).call("processCharacters", [{"type": 1, "data": "a b"}])
+        except AnalysisError as e:
+            r.idiom("C01.26", False, "frameset-text::%s" % key, f.where, "%s.processCharacters is not evaluable (%s)" % (cls.name, str(e)[:80]))
+            continue
+        got = "".join(inserted)
+        r.check("C01.26", got == " ", "frameset-text::%s" % key, f.where,
+                "%s.processCharacters on the token `a b` inserts %r; the standard inserts the white-space character and drops the two letters "
+                "(`<frameset>a b</frameset>` has the text ' ' in the frameset)" % (cls.name, got), {"mode": key}, detail={"mode": key, "inserted": got})
+
+
 def noahs_ark(ctx) -> bool:
     """C01.25: "push onto the list of active formatting elements": if, *after the last marker*, there are already three
     elements with the same name, namespace and attributes, the earliest of them is removed; then the element is appended.
@@ -1818,6 +1850,7 @@ def run(ctx):
     missing_steps(ctx)
     reentrant_brackets(ctx)
     table_text_condition(ctx)
+    frameset_text(ctx)
     from . import modes
     modes.run(ctx, "C01.12")
     standard_tables(ctx)
@@ -1838,6 +1871,10 @@ def mutants():
         T("foster-bracket-closes-with-false", "html5parser.py", "        self.parser.phases[\"inBody\"].processEndTag(token)\n        self.tree.insertFromTable = fosterParenting", "        self.parser.phases[\"inBody\"].processEndTag(token)\n        self.tree.insertFromTable = False", "C01.23"),
         T("frameset-switch-in-fragment", "html5parser.py", "        if (not self.parser.innerHTML and\n                self.tree.openElements[-1].name != \"frameset\"):", "        if self.tree.openElements[-1].name != \"frameset\":", "C01.12"),
         T("aaa-step2-dropped", "html5parser.py", "        currentNode = self.tree.openElements[-1]\n        if (currentNode.name == token[\"name\"] and\n                currentNode.namespace == self.tree.defaultNamespace and\n                currentNode not in self.tree.activeFormattingElements):\n            self.tree.openElements.pop()\n            return\n", "", "C01.22"),
+        T("frameset-pop-name-only", "html5parser.py", "            while (self.tree.openElements[-1].namespace != self.tree.defaultNamespace or\n                   self.tree.openElements[-1].name != \"html\"):\n                self.tree.openElements.pop()\n            self.tree.insertElement(token)",
+          "            while self.tree.openElements[-1].name != \"html\":\n                self.tree.openElements.pop()\n            self.tree.insertElement(token)", "C01.19"),
+        T("frameset-drops-inner-space", "html5parser.py", "        self.parser.parseError(\"unexpected-char-in-frameset\")\n        # the white space inside a run of characters is not ignored\n        data = \"\".join([c for c in token[\"data\"] if c in spaceCharacters])\n        if data:\n            self.tree.insertText(data)\n",
+          "        self.parser.parseError(\"unexpected-char-in-frameset\")\n", "C01.26"),
         T("row-context-name-only", "html5parser.py", "        while (self.tree.openElements[-1].namespace != self.tree.defaultNamespace or\n               self.tree.openElements[-1].name not in (\"tr\", \"html\")):", "        while self.tree.openElements[-1].name not in (\"tr\", \"html\"):", "C01.19"),
         T("intable-table-reprocess-unless-fragment", "html5parser.py", "        ignoreEndTag = not self.tree.elementInScope(\"table\", variant=\"table\")\n        self.parser.phase.processEndTag(impliedTagToken(\"table\"))\n        if not ignoreEndTag:\n            return token",
           "        self.parser.phase.processEndTag(impliedTagToken(\"table\"))\n        if not self.parser.innerHTML:\n            return token", "C01.18"),
